@@ -6,7 +6,6 @@ import os, re, sys
 sys.path.insert(0, os.path.join(os.path.dirname(os.path.abspath(__file__)), "..", "lib"))
 import vf
 
-KNOWN_ABORT = "spawn_abort_closed_stdio"
 TERM_SIGS = [1, 2, 9, 10, 12, 13, 14, 15]        # default action: terminate, no core
 CORE_SIGS = [3, 6, 8, 11]                        # terminate (+core, disabled by RLIMIT_CORE 0)
 
@@ -846,18 +845,15 @@ def main():
     da = [canon_impl(im) if not im.bad else "BAD " + im.bad for im in dimpls]
     db = [canon_model(im, ml) if not im.bad else "" for im, ml in zip(dimpls, dmodel)]
     dby = {c: (im, x == y) for c, im, x, y in zip(dcases, dimpls, da, db)}
-    known_abort = chk.match_known(KNOWN_ABORT)
     stats["aborts_in_uv_spawn"] = 0
 
     def dmonitor(case, impl_canon):
         im, agree = dby[case]
         reason, kind = monitor_impl(im)
         if reason and kind == "abort":
+            # since /repo 298b4fa no uv__close() of uv_spawn can see a descriptor <= 2
+            # (C12_spawn_no_assert): any abort inside uv_spawn is a violation
             stats["aborts_in_uv_spawn"] += 1
-            if agree and known_abort:
-                # exactly where the faithful model says uv__close() gets a descriptor <= 2
-                chk.known_hit(known_abort)
-                return None
             return reason + " [replay: " + case + "]"
         return reason
     vf.diff_cases(chk, "process.c (assert-enabled build) = Model/Process.v with r_trip", dcases, da, db, dmonitor)
